@@ -190,12 +190,13 @@ def judge (strict : Bool) (ws : List String) : String :=
       if w.startsWith "L:" then s!"reject:{i}:{w}:execution-does-not-terminate(frames-re-sent-without-re-PREPARE)"
       else s!"reject:{i}:{w}:{why o (evs.getD i .crash)}"
 
-/-! ### sequential executions: exact prediction by the connection-level machine `PConn`
+/-! ### sequential executions: exact prediction by the connection-level machine with the real LRU (`PLru`)
 
   seq cap=<n> ids=<stable|fresh> cols=<n0,n1,..> pf=<o|e|g|k>* xf=<o|e|f|u>* <call> <call> ...
       call = <q|b>:<key>/<nvals>,...          key = h<i>.s<j>
   One caller at a time. The driver's hidden actions are then determined (lookup, the flight's PREPARE, its
-  completion, observe, finish), the LRU (Model/LRU.lean) decides which entry a full cache purges, and the
+  completion, observe, finish): a schedule of `PLru` (proved to refine `PConn` and to keep the cache within its
+  capacity: C14_conn_lru_refines, C14_conn_lru_bound), whose LRU decides which entry a full cache purges, and the
   scripted server is replayed (pf: answer to the i-th PREPARE - PREPARED / ERROR frame / undecodable frame / answer
   of another kind; the ids are tokens `PConn.token raw-id (bindSig ..)`: id plus value widths; xf: fate of the i-th EXECUTE/BATCH that carries
   only known ids: ok / error / forget everything on that host and answer UNPREPARED / UNPREPARED with a
@@ -248,8 +249,7 @@ def bindSig (st serial nc : Nat) : List UInt8 :=
   (List.range nc).map fun i => [4, 8, 2, 1].getD ((st + serial + i) % 4) 4
 
 structure Seq where
-  p     : PConn.State String
-  lru   : LRU.Cache String Nat
+  s     : PLru.State String           -- the connection-level machine with the real LRU (Model/Prepare.lean PLru)
   reg   : List (Nat × List UInt8)     -- (host, id) the server knows
   pf    : List Char
   xf    : List Char
@@ -260,14 +260,11 @@ structure Seq where
   bad   : Option String
   fk    : List (Nat × Char) := []     -- how the failed PREPAREs failed (pf letter), for printing only
 
-def Seq.act (q : Seq) (a : PConn.Action String) : Seq :=
+def Seq.act (q : Seq) (a : PLru.Action String) : Seq :=
   if q.bad.isSome then q else
-  match PConn.step q.p a with
+  match PLru.step q.s a with
   | none => { q with bad := some "action-not-enabled" }
-  | some (p', evs) =>
-    -- whatever left the cache leaves the LRU too
-    let lru' := evs.foldl (fun l e => match e with | .rm k _ => (l.remove k).2.1 | _ => l) q.lru
-    { q with p := p', lru := lru', out := q.out ++ evs }
+  | some (s', evs) => { q with s := s', out := q.out ++ evs }
 
 /-- the scripted server's answer to a frame carrying `ids` on host h; returns the new registry and the rest of xf -/
 def serverX (q : Seq) (h : Nat) (ids : List (List UInt8)) : PConn.XAns × List (Nat × List UInt8) × List Char :=
@@ -286,7 +283,7 @@ def Seq.callLoop (c : Nat) : Nat → Seq → Seq
   | 0, q => { q with bad := some "out-of-fuel" }
   | fuel + 1, q =>
     if q.bad.isSome then q else
-    match q.p.callers[c]? with
+    match q.s.p.callers[c]? with
     | none => { q with bad := some "no-caller" }
     | some cl =>
       match cl.pc with
@@ -298,14 +295,12 @@ def Seq.callLoop (c : Nat) : Nat → Seq → Seq
         match cl.entries[cl.got.length]? with
         | none => { q with bad := some "no-entry" }
         | some e =>
-          -- execIfMissing: Get (moves to front) or Add (may purge the oldest)
-          match q.lru.get e.1 with
-          | (some _, l') => Seq.callLoop c fuel ({ q with lru := l' }.act (.lookup c))
-          | (none, _) =>
-            let f := q.p.flights.length
-            let r := q.lru.add e.1 f
-            let q1 := { q with lru := r.1 }.act (.lookup c)
-            let q2 := r.2.foldl (fun (qq : Seq) ev => qq.act (.evict ev.1)) q1
+          -- execIfMissing (PLru.stepLookup): Get (moves to front) or Add (may purge the oldest)
+          match q.s.lru.find e.1 with
+          | some _ => Seq.callLoop c fuel (q.act (.lookup c))
+          | none =>
+            let f := q.s.p.flights.length
+            let q2 := q.act (.lookup c)
             -- the flight's goroutine: PREPARE, answer, completion
             let (hh, st) := keyParts e.1
             let serial := q2.nprep
@@ -322,20 +317,15 @@ def Seq.callLoop (c : Nat) : Nat → Seq → Seq
             Seq.callLoop c fuel (q3.act (.complete f))
       | .waiting f =>
         let (hh, _) := keyParts ((cl.entries.headD ("", 0)).1)
-        let ids := (cl.got ++ [f]).map (PConn.idOf q.p)
+        let ids := (cl.got ++ [f]).map (PConn.idOf q.s.p)
         let sx := serverX q hh ids
         let q1 := q.act (.observe c sx.1)
         -- the server acted only if the frame was sent
         let sent := (q1.out.drop q.out.length).any fun | .exec _ _ _ => true | _ => false
         Seq.callLoop c fuel (if sent then { q1 with reg := sx.2.1, xf := sx.2.2 } else q1)
-      | .answered a =>
-        -- evictPreparedID looks the key up (recency!) before deciding
-        let q1 := match a with
-          | .unprep id => match PConn.unprepKey q.p cl id with
-            | some k => { q with lru := (q.lru.get k).2 }
-            | none => q
-          | _ => q
-        Seq.callLoop c fuel (q1.act (.finish c))
+      | .answered _ =>
+        -- PLru.stepFinish: evictPreparedID looks the key up (recency!) before deciding
+        Seq.callLoop c fuel (q.act (.finish c))
 
 def parseCall (w : String) : Option (Bool × List (String × Nat)) :=
   match w.splitOn ":" with
@@ -352,11 +342,11 @@ def runSeq (ws : List String) : String :=
   match calls with
   | none => "bad-op"
   | some calls =>
-    let q0 : Seq := { p := PConn.init, lru := LRU.new ((kvs ws "cap").toInt?.getD 0), reg := [], pf := (kvs ws "pf").toList,
+    let q0 : Seq := { s := PLru.init ((kvs ws "cap").toInt?.getD 0), reg := [], pf := (kvs ws "pf").toList,
                       xf := (kvs ws "xf").toList, stable := kvs ws "ids" == "stable",
                       cols := ((kvs ws "cols").splitOn ",").map fun x => x.toNat?.getD 0, nprep := 0, out := [], bad := none }
     let q := calls.foldl (fun (q : Seq) cl =>
-      let c := q.p.callers.length
+      let c := q.s.p.callers.length
       Seq.callLoop c 400 (q.act (.call cl.1 cl.2))) q0
     match q.bad with
     | some b => "stuck:" ++ b
